@@ -3,6 +3,7 @@ module verifharness
 go 1.23.2
 
 require (
+	github.com/AdguardTeam/golibs v0.29.0
 	github.com/AdguardTeam/urlfilter v0.0.0
 	github.com/anishathalye/porcupine v1.3.0
 	github.com/miekg/dns v1.1.61
@@ -10,7 +11,6 @@ require (
 )
 
 require (
-	github.com/AdguardTeam/golibs v0.29.0 // indirect
 	github.com/AdguardTeam/gomitmproxy v0.2.1 // indirect
 	github.com/pkg/errors v0.9.1 // indirect
 	golang.org/x/exp v0.0.0-20240909161429-701f63a606c0 // indirect
